@@ -608,7 +608,7 @@ func resetV2(cfg Config, n int, cont string, fault bool) map[string]any {
 		chprio = append(chprio, [2]int{int(p), int(p)})
 	}
 	return map[string]any{"e": "Reset", "path": n, "H": cfg.H, "prios": cfg.Prios, "chans": cfg.Prios, "chprio": chprio,
-		"live": cfg.Prios, "share": shareOf(cfg), "sat": cfg.Saturated, "fault": fault, "v1": false, "cont": cont,
+		"live": cfg.Prios, "share": shareOf(cfg), "sat": cfg.Saturated, "fault": fault, "v1": false, "unordered": false, "cont": cont,
 		"p": 0, "k": 0, "c": 0, "cfg": cfg}
 }
 
